@@ -34,7 +34,7 @@ def ensure():
     lock = open(os.path.join(OUT, '.lock'), 'w')
     fcntl.flock(lock, fcntl.LOCK_EX)
     try:
-        h = hashlib.sha256(b'recipe-7')
+        h = hashlib.sha256(b'recipe-8')
         for f in sorted(os.listdir(SRC)):
             h.update(f.encode()); h.update(open(os.path.join(SRC, f), 'rb').read())
         stamp = os.path.join(OUT, 'stamp')
@@ -59,6 +59,7 @@ def ensure():
         libs['cxx_clang_v0'] = os.path.join(OUT, 'libcxx_clang_v0.so')
         libs['fnptr_nodebug_v0'] = os.path.join(OUT, 'libfnptr_nodebug_v0.so')
         libs['app'] = os.path.join(OUT, 'app')
+        libs['app_nodeps'] = os.path.join(OUT, 'app_nodeps.so')      # an "application" with no undefined symbol at all
         if os.path.exists(stamp) and open(stamp).read() == want and all(os.path.exists(p) for p in libs.values()) \
                 and all(os.path.exists(os.path.join(libs['ktree_v%d' % v], 'vmlinux')) for v in (0, 1)):
             return libs
@@ -88,6 +89,7 @@ def ensure():
         _sh(['clang++', '-g', '-O0', '-fPIC', '-shared', '-DV=0', '-Wl,-soname,libcxx.so.1', os.path.join(SRC, 'cxx.cc'), '-o', libs['cxx_clang_v0']])
         _sh(['gcc', '-O1', '-fPIC', '-shared', '-DV=0', os.path.join(SRC, 'fnptr.c'), '-o', libs['fnptr_nodebug_v0']])
         _sh(['gcc', '-g', '-O0', os.path.join(SRC, 'app.c'), '-o', libs['app'], '-L' + OUT, '-l:libshapes_v0.so'])
+        _sh(['gcc', '-g', '-O0', '-fPIC', '-shared', '-nostdlib', os.path.join(SRC, 'app_nodeps.c'), '-o', libs['app_nodeps']])
         open(stamp, 'w').write(want)
         return libs
     finally:
